@@ -89,8 +89,8 @@ Theorem C13_refuted_F13b :
 Proof. exact refuted_F13b. Qed.
 Print Assumptions C13_refuted_F13b.
 
-Theorem C13_refuted_F01e :
-  guard_F01e [] = false /\ mock_props idf idf ident_any [] = None
-  /\ client_props idf idf idf idf no_score ident_any [] = Some [].
-Proof. exact refuted_F01e. Qed.
-Print Assumptions C13_refuted_F01e.
+Theorem C13_fixed_F01e :
+  mock_props idf idf ident_any [] = Some [] /\ client_props idf idf idf idf no_score ident_any [] = Some []
+  /\ same_tags idf idf idf idf no_score ident_any [].
+Proof. exact fixed_F01e. Qed.
+Print Assumptions C13_fixed_F01e.
